@@ -246,6 +246,9 @@ pub fn check(c: &Case, obs: &mut Obs) -> Result<(), String> {
             let got = pat.matches(&c.name);
             let want = m::glob_matches(&toks, &c.name);
             obs.verdicts += 1;
+            if pat.matches(&c.name) != got || Pattern::new(p).map(|q| q.matches(&c.name)).ok() != Some(got) {
+                return Err(format!("glob {:?} matches({:?}) answers differently when asked again / compiled again", p, c.name));
+            }
             if got != want {
                 return Err(format!("glob {:?} matches({:?}) = {}, shell-glob model says {}", p, c.name, got, want));
             }
